@@ -101,6 +101,7 @@ func workerMain(args []string) int {
 	journal := fs.String("journal", "", "")
 	deadline := fs.Int64("deadline", 0, "unix seconds; stop starting new runs after it")
 	noshrink := fs.Bool("noshrink", false, "")
+	snapshot := fs.String("snapshot", "", "file receiving the cumulative summary every 256 runs")
 	fs.Parse(args)
 	debug.SetMaxStack(64 << 20)
 	cd := Classes[*prop]
@@ -123,9 +124,28 @@ func workerMain(args []string) int {
 	shrunk := map[string]bool{}
 	lh := sha256.New()
 	var jb [8]byte
+	finish := func() {
+		sum.States = sum.States[:0]
+		for s := range states {
+			sum.States = append(sum.States, s)
+		}
+		sum.NonTrivial = sum.NonTrivial[:0]
+		for s := range nt {
+			sum.NonTrivial = append(sum.NonTrivial, s)
+		}
+		sum.LogHash = fmt.Sprintf("%x", lh.Sum(nil))
+	}
 	for i := *from; i < *to; i += *step {
 		if *deadline > 0 && i%16 == 0 && time.Now().Unix() > *deadline {
 			break
+		}
+		if *snapshot != "" && sum.Done > 0 && sum.Done%256 == 0 {
+			finish()
+			if b, err := json.Marshal(sum); err == nil {
+				if os.WriteFile(*snapshot+".tmp", b, 0o644) == nil {
+					os.Rename(*snapshot+".tmp", *snapshot)
+				}
+			}
 		}
 		if jf != nil {
 			binary.LittleEndian.PutUint64(jb[:], uint64(i))
@@ -188,13 +208,7 @@ func workerMain(args []string) int {
 			sum.Violations = append(sum.Violations, WViolation{Run: i, Class: v.Class, Detail: mv.Detail, Op: mv.Op, OrigOps: len(h.Ops), History: min})
 		}
 	}
-	for s := range states {
-		sum.States = append(sum.States, s)
-	}
-	for s := range nt {
-		sum.NonTrivial = append(sum.NonTrivial, s)
-	}
-	sum.LogHash = fmt.Sprintf("%x", lh.Sum(nil))
+	finish()
 	enc := json.NewEncoder(os.Stdout)
 	if err := enc.Encode(sum); err != nil {
 		fmt.Fprintln(os.Stderr, err)
@@ -315,11 +329,12 @@ type workerResult struct {
 
 func runWorker(prop string, seed, from, to, step int64, thorough bool, journal string, deadline int64) workerResult {
 	args := []string{"worker", "-prop", prop, "-seed", fmt.Sprint(seed), "-from", fmt.Sprint(from), "-to", fmt.Sprint(to),
-		"-step", fmt.Sprint(step), "-journal", journal, "-deadline", fmt.Sprint(deadline)}
+		"-step", fmt.Sprint(step), "-journal", journal, "-deadline", fmt.Sprint(deadline), "-snapshot", journal + ".snap"}
 	if thorough {
 		args = append(args, "-thorough")
 	}
 	os.Remove(journal)
+	os.Remove(journal + ".snap")
 	cmd := exec.Command(selfExe(), args...)
 	cmd.Env = append(os.Environ(), "GOMAXPROCS=2", "GOGC=200")
 	var out, errb bytes.Buffer
@@ -337,7 +352,15 @@ func runWorker(prop string, seed, from, to, step int64, thorough bool, journal s
 	if jerr != nil || len(jb) < 8 {
 		return workerResult{err: fmt.Errorf("worker failed before its first run: %v", err), stderr: tail(errb.String(), 2000)}
 	}
-	return workerResult{crashed: true, crashAt: int64(binary.LittleEndian.Uint64(jb[:8])), stderr: tail(errb.String(), 4000)}
+	res := workerResult{crashed: true, crashAt: int64(binary.LittleEndian.Uint64(jb[:8])), stderr: tail(errb.String(), 4000)}
+	// what the worker had covered at its last snapshot still counts
+	if sb, e := os.ReadFile(journal + ".snap"); e == nil {
+		var s WSummary
+		if json.Unmarshal(sb, &s) == nil {
+			res.sum = &s
+		}
+	}
+	return res
 }
 
 func tail(s string, n int) string {
@@ -518,6 +541,9 @@ func runMain(args []string) int {
 				if !r.crashed {
 					merge(r.sum)
 					return
+				}
+				if r.sum != nil {
+					merge(r.sum)
 				}
 				mu.Lock()
 				crashes = append(crashes, r.crashAt)
